@@ -400,9 +400,9 @@ where
 
         for (ind, mut col) in mat.column_iter_mut().enumerate() {
             x[ind] += self.dt;
-            let above = g(self, self.time.real(), x.as_slice(), &mut self.data.clone())?;
+            let above = g(self, (self.time + self.dt).real(), x.as_slice(), &mut self.data.clone())?;
             x[ind] -= self.two * self.dt;
-            let below = g(self, self.time.real(), x.as_slice(), &mut self.data.clone())?;
+            let below = g(self, (self.time + self.dt).real(), x.as_slice(), &mut self.data.clone())?;
             x[ind] += self.dt;
             col.set_column(0, &((above - below) * denom));
         }
@@ -420,7 +420,7 @@ where
         let mut guess = self.state.clone();
         let mut derivative = g(
             self,
-            self.time.real(),
+            (self.time + self.dt).real(),
             guess.as_slice(),
             &mut self.data.clone(),
         )?;
@@ -450,7 +450,7 @@ where
             let derivative_last = derivative;
             derivative = g(
                 self,
-                self.time.real(),
+                (self.time + self.dt).real(),
                 guess.as_slice(),
                 &mut self.data.clone(),
             )?;
